@@ -69,7 +69,11 @@ class Ctx:
     def build_harness(self, race=False):
         """(Re)build the harness against /repo's current working tree, hooks on."""
         out = os.path.join(self.scratch, "vh-race" if race else "vh")
-        hdir = os.path.join(VERIF, "harness")
+        # the harness is built from a private copy of its source, so that concurrent checks (possibly pointed at different
+        # trees with VERIF_REPO) never share a go.mod
+        hdir = os.path.join(self.scratch, "harness-src")
+        if not os.path.isdir(hdir):
+            shutil.copytree(os.path.join(VERIF, "harness"), hdir)
         env = dict(os.environ, **GOENV)
         # module graph: replace => REPO, sums copied from the repository
         gomod = open(os.path.join(hdir, "go.mod")).read()
@@ -384,9 +388,11 @@ class Ctx:
                   coverage=cov, assumptions=self.assumptions, wall_s=round(wall, 1),
                   violations=len(self.violations),
                   known_findings_hit=[h["id"] for h in self.known_hits])
-        os.makedirs(os.path.join(VERIF, "evidence"), exist_ok=True)
-        with open(os.path.join(VERIF, "evidence", self.prop + ".json"), "w") as fh:
-            json.dump(ev, fh, indent=1)
+        if REPO == "/repo":
+            # (a run pointed at another tree with VERIF_REPO -- a seeded change in a scratch worktree -- is not evidence)
+            os.makedirs(os.path.join(VERIF, "evidence"), exist_ok=True)
+            with open(os.path.join(VERIF, "evidence", self.prop + ".json"), "w") as fh:
+                json.dump(ev, fh, indent=1)
         for h in self.known_hits:
             print("KNOWN-FINDING: property=%s %s" % (self.prop, h["what"]))
         for v in self.violations:
